@@ -223,7 +223,28 @@ def oracle_search(case, status, out):
                 if bad is None:
                     return None
                 problems.append(f"start cell {S}, goal cell {G}: {bad}")
-    return ("path", problems[0])
+    return (blame(case, ras, cross, cand), problems[0])
+
+
+def blame(case, ras, cross, cand):
+    """which stage of the public function produced a wrong result (finding key)"""
+    from xrspatial.pathfinding import _find_nearest_pixel, _get_pixel_id
+    try:
+        sp = _get_pixel_id((float(F(case["sy"])), float(F(case["sx"]))), ras, "x", "y")
+        gp = _get_pixel_id((float(F(case["gy"])), float(F(case["gx"]))), ras, "x", "y")
+    except Exception:
+        return "D6:pixel-id"
+    if sp[0] not in cand["sy"] or sp[1] not in cand["sx"] or gp[0] not in cand["gy"] or gp[1] not in cand["gx"]:
+        return "D6:pixel-id"
+    bar = np.array([float(b) for b in case["barriers"]])
+    data = np.asarray(ras.data)
+    for on, pt in ((case["snaps"], sp), (case["snapg"], gp)):
+        if on:
+            got = tuple(int(v) for v in _find_nearest_pixel(pt[0], pt[1], data, bar))
+            want = nearest_crossable(cross, pt[0], pt[1])
+            if want and got not in want:
+                return "D7:snap"
+    return "path"
 
 
 def oracle_pixel(coords, res, p, got):
@@ -540,7 +561,11 @@ def replay_case(r, c):
 
 
 def key_of(c, text):
-    return {"pixel": "D6:pixel-id", "snap": "D7:snap"}.get(c["kind"], "path")
+    if c["kind"] == "search":
+        status, out = real_search(c)
+        bad = oracle_search(c, status, out)
+        return bad[0] if bad else "path"
+    return {"pixel": "D6:pixel-id", "snap": "D7:snap"}[c["kind"]]
 
 
 # ---------------------------------------------------------------- the check
